@@ -93,6 +93,8 @@ def project(n, keep, counter):
         b = project(n.if_false, keep, counter)
         if a is None and b is None:
             return None
+        if a is not None and b is not None and a == b:
+            return a  # both arms do the same to the slice: the branch does not matter for it
         return IR.Branch(n.condition, a or IR.Block([]), b or IR.Block([]))
     if isinstance(n, IR.Loop):
         b = project(n.body, keep, counter)
